@@ -1118,6 +1118,16 @@ class Interp:
                 return all(concrete(i, depth + 1) for i in x.values())
             return True
         if not all(concrete(a) for a in [*args, *kwargs.values()]):
+            # a pure TEXT transform / predicate applied to abstract text: the result is text derived from the argument (it is
+            # no longer the argument itself - rules that follow a text to a sink see the transformation), a predicate is a decision
+            if dotted in _TEXT_TRANSFORMS:
+                src = next((a for a in [*args, *kwargs.values()] if isinstance(a, Sym | SymStr)), None)
+                attr = dotted.rsplit(".", 1)[1]
+                if attr.startswith("is_") or attr.startswith("is"):
+                    return self.decide((dotted, getattr(src, "uid", None) or getattr(src, "text", lambda: "")()))
+                d = Sym(f"{dotted}({getattr(src, 'name', 'text')})", truthy=getattr(src, "truthy", None), pytype=str, tags=tuple(getattr(src, "tags", ())) + ("derived", dotted))
+                d.attrs["derived_from"] = src
+                return d
             self.unsupported(node, f"native model of {dotted} applied to an abstract value")
         a = [self._wrap_callable(x, node) for x in args]
         k = {kk: self._wrap_callable(v, node) for kk, v in kwargs.items()}
@@ -1953,8 +1963,10 @@ _NATIVE_PURE = {
     "math": ("floor", "ceil", "isnan", "isinf", "sqrt", "trunc", "isclose", "fabs"),
     "string": (),
     "textwrap": ("dedent", "indent", "shorten"),
-    "unicodedata": ("normalize", "category"),
+    "unicodedata": ("normalize", "category", "is_normalized"),
+    "html": ("escape", "unescape"),
 }
+_TEXT_TRANSFORMS = frozenset({"unicodedata.normalize", "unicodedata.is_normalized", "textwrap.dedent", "textwrap.indent", "textwrap.shorten", "html.escape", "html.unescape"})
 
 
 def _own_nodes(fn):
